@@ -134,7 +134,8 @@ struct Item {
     /// a term that builds a local compound value and clones / compares it (index into `LOCAL_NAMES`; 0 none)
     local: u8,
     /// constants: how the accessor `rd_K<n>` is written: bit 0 = as a `filtermap` (else `fn`),
-    /// bit 1 = at the start of pkg (else at its end), bit 2 = a `test t_K<n>` item reads the constant too
+    /// bit 1 = at the start of pkg (else at its end), bit 2 = a `test t_K<n>` item reads the constant too,
+    /// bit 3 = accessor and test item live in the constant's own module (else in pkg)
     acc: u8,
     refs: Vec<Ref>,
 }
@@ -397,6 +398,8 @@ fn scc_graph(mut g: usize, extended: bool) -> (Vec<Item>, Expect) {
             _ => (0, 3), // constant in pkg, functions in pkg.ma.mc
         };
         let mut items = vec![plain_item(true, perm[0], mk)];
+        // the accessor lives with the constant: nothing in pkg leads to the ring
+        items[0].acc |= 8;
         for i in 0..s {
             let mut f = plain_item(false, perm[1 + i], mf);
             let mut r = plain_ref(1 + (i + 1) % s);
@@ -543,7 +546,7 @@ fn gen_graph(seed: u64, g: u64) -> (Vec<Item>, Expect) {
             ty: if p.chance(1, 2) { 0 } else { p.below(TY_NAMES.len() as u64) as u8 },
             alias: match p.below(6) { 0 => Some(true), 1 => Some(false), _ => None },
             local: if p.chance(1, 5) { 1 + p.below(LOCAL_NAMES.len() as u64 - 1) as u8 } else { 0 },
-            acc: if p.chance(1, 2) { 0 } else { p.below(8) as u8 },
+            acc: if p.chance(1, 2) { 0 } else { p.below(16) as u8 },
             refs: vec![],
         })
         .collect();
@@ -884,8 +887,10 @@ fn render(case: &Case) -> Files {
     // accessors for the constants live in pkg, before or after everything else,
     // as functions or filtermaps; some constants are also read by a test item
     let mut oracle = Oracle { items, cval: vec![None; items.len()], fmemo: BTreeMap::new() };
-    let mut front: Vec<String> = vec![];
+    let mut fronts: Vec<Vec<String>> = vec![vec![]; 4];
     for (i, it) in items.iter().enumerate().filter(|(_, i)| i.is_const) {
+        // bit 3: the accessor (and the test item) live in the constant's own module instead of pkg
+        let am = if it.acc & 8 == 8 { it.module } else { 0 };
         let mut names = vec![it.name()];
         if it.alias.is_some() {
             names.push(format!("A{}", it.n));
@@ -906,14 +911,17 @@ fn render(case: &Case) -> Files {
                 out.push(format!("test t_{name} {{ if {read} != {want} {{ reject; }} accept }}"));
             }
             if it.acc & 2 == 2 {
-                front.append(&mut out);
+                fronts[am].append(&mut out);
             } else {
-                bodies[0].append(&mut out);
+                bodies[am].append(&mut out);
             }
         }
     }
-    front.append(&mut bodies[0]);
-    bodies[0] = front;
+    for m in 0..4 {
+        let mut f = std::mem::take(&mut fronts[m]);
+        f.append(&mut bodies[m]);
+        bodies[m] = f;
+    }
     let files = (0..4)
         .map(|m| {
             let mut s = String::new();
@@ -956,11 +964,12 @@ fn known_structure(case: &Case) -> (BTreeMap<String, char>, BTreeSet<(String, St
             edges.insert((from.clone(), var));
         }
         if it.is_const {
-            let rd = format!("pkg.rd_{}", it.name());
+            let am = acc_module(it);
+            let rd = format!("{am}.rd_{}", it.name());
             kinds.insert(rd.clone(), 'f');
             edges.insert((rd, from.clone()));
             if it.acc & 4 == 4 {
-                let t = format!("pkg.test#t_{}", it.name());
+                let t = format!("{am}.test#t_{}", it.name());
                 kinds.insert(t.clone(), 'f');
                 edges.insert((t, from.clone()));
             }
@@ -968,11 +977,11 @@ fn known_structure(case: &Case) -> (BTreeMap<String, char>, BTreeSet<(String, St
                 let a = format!("{}.A{}", ABS[it.module], it.n);
                 kinds.insert(a.clone(), 'c');
                 edges.insert((a.clone(), from.clone()));
-                let rd = format!("pkg.rd_A{}", it.n);
+                let rd = format!("{am}.rd_A{}", it.n);
                 kinds.insert(rd.clone(), 'f');
                 edges.insert((rd, a.clone()));
                 if it.acc & 4 == 4 {
-                    let t = format!("pkg.test#t_A{}", it.n);
+                    let t = format!("{am}.test#t_A{}", it.n);
                     kinds.insert(t.clone(), 'f');
                     edges.insert((t, a));
                 }
@@ -980,6 +989,11 @@ fn known_structure(case: &Case) -> (BTreeMap<String, char>, BTreeSet<(String, St
         }
     }
     (kinds, edges)
+}
+
+/// full name of the module the accessor / test item of a constant lives in
+fn acc_module(it: &Item) -> &'static str {
+    if it.acc & 8 == 8 { ABS[it.module] } else { "pkg" }
 }
 
 fn tree(files: &[(usize, String)]) -> FileTree {
@@ -1515,7 +1529,7 @@ fn run_case(rep: &mut Report, drv: &mut Driver, seed: u64, index: u64) {
             rep.hist("local-compound", format!("{} in {}", LOCAL_NAMES[it.local as usize].0, if it.is_const { "const" } else { "fn" }));
         }
         if it.is_const {
-            rep.hist("accessor", format!("{}{}{}", if it.acc & 1 == 1 { "filtermap" } else { "fn" }, if it.acc & 2 == 2 { " first" } else { " last" }, if it.acc & 4 == 4 { " +test" } else { "" }));
+            rep.hist("accessor", format!("{}{}{}", if it.acc & 1 == 1 { "filtermap" } else { "fn" }, if it.acc & 2 == 2 { " first" } else { " last" }, if it.acc & 4 == 4 { " +test" } else { "" }) + if it.acc & 8 == 8 { " (own module)" } else { "" });
             rep.hist("const-type", format!("{}{}", TY_NAMES[it.ty as usize], if it.alias.is_some() { " +alias" } else { "" }));
         }
         for r in &it.refs {
@@ -1703,9 +1717,11 @@ fn run_case(rep: &mut Report, drv: &mut Driver, seed: u64, index: u64) {
                             let it = &items[i];
                             if it.is_const {
                                 let want = o.constant(i);
-                                let mut names = vec![format!("rd_{}", it.name())];
+                                let am = format!("{}.", acc_module(it));
+                                let am = am.strip_prefix("pkg.").unwrap_or(&am).to_string();
+                                let mut names = vec![format!("{am}rd_{}", it.name())];
                                 if it.alias.is_some() {
-                                    names.push(format!("rd_A{}", it.n));
+                                    names.push(format!("{am}rd_A{}", it.n));
                                 }
                                 for name in names {
                                     let got = if it.acc & 1 == 1 {
